@@ -387,6 +387,8 @@ def run_shard(shard, tier, seed):
                         expect(rep, t, dev, d, dict(base, route_path=s_slash.replace("/", "\\")), mk(rr), sig="route/string", rp=("route-str-bs", nd, nr, rot, len(odd)))
                         segs = [PortSegment(p, l) for p, l, _ in rs]
                         expect(rep, t, dev, d, dict(base, route_path=segs), mk(rr), sig="route/segments", rp=("route-seg", nd, nr, rot, len(odd)))
+                        # any sequence of segments, not only a list
+                        expect(rep, t, dev, d, dict(base, route_path=tuple(segs)), mk(rr), sig="route/segments-tuple", rp=("route-seg-tuple", nd, nr, rot, len(odd)))
                         enc = PADDED_EPATH.encode(segs, length=True, pad_length=True)
                         expect(rep, t, dev, d, dict(base, route_path=enc), mk(rr), sig="route/bytes", rp=("route-bytes", nd, nr, rot, len(odd)))
             # connected messages go over the connection opened along the driver route
